@@ -175,6 +175,13 @@ package upstream
 // Data invariant of the upstream list (exported to the listener package's contracts): every entry was built by
 // the parser, entries are distinct objects, and a current connection always has its session.
 //@ pred UpstreamsInv(ul *Upstreams) := ul != nil && upstreamsWF(ul.Data) && distinctUps(ul.Data) && (ul.connection != nil ==> ul.session != nil)
+// C02: ending the shared session (and with it every logical connection it carries) is reserved for the shutdown
+// of the client
+//@ ghost G_client_stopping() bool
+//@ func (ul *Upstreams) Shutdown
+//@   property C02
+//@   requires G_client_stopping()                                                                               :only_when_the_client_stops
+
 //@ func (ul *Upstreams) Connect
 //@   property C16
 //@   requires config != nil && UpstreamsInv(ul)                                                                 :upstream_list_invariant
@@ -188,6 +195,11 @@ package upstream
 //@   callsite open#1 () require old(ul.connection) == nil || G_snap_closed()                                    :a_live_connection_is_reused
 //@   callsite openStream#1 () require ul.session != nil                                                         :streams_only_over_a_session
 //@   ensures err == nil ==> result != nil && spec_fresh(result)                                                 :a_new_stream_per_logical_connection
+// C14: the shared connection is only forgotten when it reported closed: a live session that is dropped from the
+// table is never closed by anybody and stays behind with its sockets and goroutines, on both sides
+//@   property C14
+//@   ensures old(ul.connection) == nil || ul.connection == old(ul.connection) || G_snap_closed()                :a_live_session_is_never_abandoned
+//@   property C16
 //@   ensures err != nil ==> result == nil
 
 //@ func (ups *Packet) Connect
@@ -201,4 +213,5 @@ package upstream
 //@   requires ul.session != nil
 //@   callsite LogClose#1 (arg0 io.Closer, stream *streams.NamedStream) require spec_sameref(arg0, stream)                 :failed_stream_is_closed
 //@   ensures err != nil ==> result == nil                                                                                 :no_stream_on_error
+//@   ensures ul.connection == old(ul.connection) && ul.session == old(ul.session)                                         :leaves_the_shared_session_in_place
 //@   ensures err == nil ==> result != nil && spec_fresh(result)                                                           :a_new_stream_per_logical_connection
